@@ -45,7 +45,7 @@ macro_rules! ser_est {
     };
 }
 ser_est!(average::Mean); ser_est!(average::Variance); ser_est!(average::Skewness); ser_est!(average::Kurtosis);
-ser_est!(average::Moments4); ser_est!(M5); ser_est!(M6); ser_est!(M8); ser_est!(M10); ser_est!(average::Min); ser_est!(average::Max);
+ser_est!(average::Moments4); ser_est!(M5); ser_est!(M6); ser_est!(M8); ser_est!(M10); ser_est!(M7); ser_est!(M12); ser_est!(average::Min); ser_est!(average::Max);
 
 macro_rules! ser_pair {
     ($t:ty) => {
@@ -81,7 +81,7 @@ macro_rules! ser_hist {
         }
     };
 }
-ser_hist!(H1); ser_hist!(H2); ser_hist!(H4); ser_hist!(H10); ser_hist!(H100);
+ser_hist!(H1); ser_hist!(H2); ser_hist!(H4); ser_hist!(H10); ser_hist!(H100); ser_hist!(H7); ser_hist!(H16); ser_hist!(H17); ser_hist!(H255);
 
 fn finite_state<T: std::fmt::Debug>(t: &T) -> bool { floats_of(t).iter().all(|x| x.is_finite()) }
 
@@ -196,10 +196,10 @@ fn c18_for<T: Ser>(out: &mut Out, tier: &str, rng: &mut Rng) {
 pub fn c18(out: &mut Out, tier: &str, rng: &mut Rng) {
     c18_for::<average::Mean>(out, tier, rng); c18_for::<average::Variance>(out, tier, rng); c18_for::<average::Skewness>(out, tier, rng);
     c18_for::<average::Kurtosis>(out, tier, rng); c18_for::<average::Moments4>(out, tier, rng); c18_for::<M5>(out, tier, rng);
-    c18_for::<M6>(out, tier, rng); c18_for::<M8>(out, tier, rng); c18_for::<M10>(out, tier, rng);
+    c18_for::<M6>(out, tier, rng); c18_for::<M8>(out, tier, rng); c18_for::<M10>(out, tier, rng); c18_for::<M7>(out, tier, rng); c18_for::<M12>(out, tier, rng);
     c18_for::<average::Min>(out, tier, rng); c18_for::<average::Max>(out, tier, rng); c18_for::<average::Quantile>(out, tier, rng);
     c18_for::<average::WeightedMean>(out, tier, rng); c18_for::<average::WeightedMeanWithError>(out, tier, rng); c18_for::<average::Covariance>(out, tier, rng);
-    c18_for::<H1>(out, tier, rng); c18_for::<H2>(out, tier, rng); c18_for::<H4>(out, tier, rng); c18_for::<H10>(out, tier, rng); c18_for::<H100>(out, tier, rng);
+    c18_for::<H1>(out, tier, rng); c18_for::<H2>(out, tier, rng); c18_for::<H4>(out, tier, rng); c18_for::<H10>(out, tier, rng); c18_for::<H7>(out, tier, rng); c18_for::<H16>(out, tier, rng); c18_for::<H17>(out, tier, rng); c18_for::<H255>(out, tier, rng); c18_for::<H100>(out, tier, rng);
 }
 
 // ------------------------------------------------------------------ C19
